@@ -3,6 +3,7 @@ package scen
 import (
 	"fmt"
 	"sort"
+	"strings"
 
 	"mcrt"
 )
@@ -101,6 +102,11 @@ func c05Oracle(sp *Spec, x *X, res *mcrt.Result) (string, string) {
 				return "bar-came-back", fmt.Sprintf("bar %d absent from an earlier frame, present again in frame %d: %s", b, i, f)
 			}
 			// must(F): added before the previous frame was flushed, hence before this cycle began
+			// a frame that fills the terminal (height = rows - 1) may have cut off the bars at its top
+			full := sp.Pty && len(f.Rows) >= sp.TermH-1
+			if full && !in {
+				continue
+			}
 			if cs := x.CycleStart(frames, i); !in && !rem && !waiting && cs > 0 && ret < cs {
 				return "bar-missing", fmt.Sprintf("bar %d (added at step %d) missing from frame %d (cycle began at step %d): %s", b, ret, i, cs, f)
 			}
@@ -129,7 +135,21 @@ func c05Oracle(sp *Spec, x *X, res *mcrt.Result) (string, string) {
 		if !ok {
 			return "notifier-count", fmt.Sprintf("shutdown notifier delivered %d values", len(x.Notified))
 		}
-		if !sp.Pop {
+		if sp.Pty {
+			// frames may be clipped by the terminal height: every bar that cannot have been removed is still listed
+			for b := range sp.Bars {
+				if _, _, added := addRet(x, b); !added || removable(sp, x, b) {
+					continue
+				}
+				found := false
+				for _, id := range ids {
+					found = found || id == b
+				}
+				if !found {
+					return "notifier-missing-bar", fmt.Sprintf("bar %d was never removed but the notifier lists only %v", b, ids)
+				}
+			}
+		} else if !sp.Pop {
 			// expected: bars still in the container = those in the last frame, minus the ones that frame dropped
 			want := []int{}
 			if n := len(frames); n > 0 {
@@ -148,7 +168,7 @@ func c05Oracle(sp *Spec, x *X, res *mcrt.Result) (string, string) {
 				}
 			}
 			sort.Ints(want)
-			if fmt.Sprint(ids) != fmt.Sprint(want) && sp.Refresh == "auto" {
+			if fmt.Sprint(ids) != fmt.Sprint(want) && sp.Refresh == "auto" && len(frames) > 0 {
 				return "notifier-set", fmt.Sprintf("notifier listed bars %v, the container holds %v (last frame %s)", ids, want, frames[len(frames)-1])
 			}
 		}
@@ -211,6 +231,16 @@ func c05Programs(tier string) []*Spec {
 			}
 			sp.Clients = [][]Op{ops, fin}
 			out = append(out, sp)
+		}
+	}
+	// more rows than the terminal shows, then the bars at the bottom leave: the bars that were cut off are still in
+	// the container and come back
+	for _, sp0 := range c04Programs(tier) {
+		if strings.HasPrefix(sp0.Name, "c04-tall-drop") {
+			sp := *sp0
+			sp.Name = "c05-tall-drop"
+			sp.Notifier = true
+			out = append(out, &sp)
 		}
 	}
 	// more bars than queue length: re-pushes go through detached goroutines (partition event push-detached)
